@@ -61,6 +61,23 @@ def starts(*prefixes):
     return lambda k, m: k.startswith(prefixes)
 
 
+def has_model(k: str, prop: str) -> bool:
+    """model:<P1>,<P2>:<name>  -- a reference-model operation (audit/models.py) that serves the listed properties"""
+    return k.startswith("model:") and prop in k.split(":", 2)[1].split(",")
+
+
+def expected_outcome_violation(k: str, outcome, message) -> str | None:
+    """Operations whose *expected* outcome is fixed by the property, whatever the history (the empty one included):
+    a model operation must agree with its reference model; a rejection operation must raise ValueError."""
+    if k.startswith("model:") and outcome[0] != "ok":
+        if message and message.get("raised_in_harness_code"):
+            return None  # API drift / harness defect: reported as a harness note, never as a violation
+        return f"{outcome[1]}: {(message or {}).get('message', '')}"[:500]
+    if k.startswith("reject:") and list(outcome) != ["raised", "ValueError"]:
+        return "malformed call was ACCEPTED" if outcome[0] == "ok" else f"rejected with {outcome[1]} instead of ValueError"
+    return None
+
+
 SMALL = dict(seeds=16, groups=None, crash_points=32, switch_points=16)
 
 PROPERTIES = {
@@ -206,7 +223,7 @@ def main():
     n_groups = tier_cfg["groups"]
 
     def select(k, m):
-        return cfg["select"](k, m)
+        return cfg["select"](k, m) or has_model(k, prop)
 
     ex = Explorer(
         repo=args.repo, jobs=args.jobs, seeds=args.seeds or tier_cfg["seeds"], seed_base=args.seed * 100003,
@@ -219,6 +236,24 @@ def main():
         focus_cap=96 if args.tier == "quick" else 400,
     )  # fmt: skip
     try:
+        if args.replay and json.load(open(args.replay)).get("kind") == "exponax-dst-model-replay":
+            rec = json.load(open(args.replay))
+            op = rec["operation"]
+            if not ex.load_catalogue() or op not in ex.all_ops:
+                print("HARNESS-ERROR replay refers to an operation missing from this tree's catalogue: " + op)
+                return 2
+            iso, _ = ex.isolated_reference([op])
+            hit = None
+            for x64 in (False, True):
+                if op in iso[x64]:
+                    why = expected_outcome_violation(op, iso[x64][op], ex.isolated_messages[x64].get(op))
+                    print(f"replay property={prop} operation={op} session={'float64' if x64 else 'float32'} history=empty outcome={iso[x64][op][0]}:{iso[x64][op][1][:24]}" + (f" -- {why}" if why else ""))
+                    hit = hit or why
+            if hit:
+                print(f"VIOLATION property={prop} replay={args.replay}")
+                return 1
+            print("replay clean: the operation agrees with its reference model in a fresh interpreter")
+            return 0
         if args.replay:
             r, rec = ex.replay(args.replay)
             if r is None:
@@ -253,21 +288,49 @@ def main():
             print("HARNESS-ERROR no reference could be computed: " + "; ".join(ex.errors)[:800])
             return 2
         # operations that already raise in isolation are outside what this check judges (reported)
-        skipped = sorted({k for t in ex.reference.values() for k, v in t.items() if v[0] != "ok"})
+        skipped = sorted({k for t in ex.reference.values() for k, v in t.items() if v[0] != "ok" and not k.startswith("reject:")})
+        # operations whose expected outcome the property fixes: checked first in the empty history (fresh interpreter, one operation)
+        det, det_known, det_notes, det_replays = [], [], [], []
+        cand = sorted({k for x, t in ex.reference.items() for k, v in t.items() if expected_outcome_violation(k, v, ex.reference_messages[x].get(k)) or (k.startswith("model:") and v[0] != "ok")})
+        if cand:
+            iso, _ = ex.isolated_reference(cand)
+            for k in cand:
+                for x64 in (False, True):
+                    if k not in iso[x64]:
+                        continue
+                    msg = ex.isolated_messages[x64].get(k)
+                    why = expected_outcome_violation(k, iso[x64][k], msg)
+                    if why is None:
+                        if iso[x64][k][0] != "ok" and k.startswith("model:"):
+                            det_notes.append(f"{k}: raised inside harness code ({(msg or {}).get('type')}: {(msg or {}).get('message', '')[:160]}) -- API drift or harness defect, not judged")
+                        continue
+                    if is_known(known, prop, k):
+                        det_known.append(k)
+                        continue
+                    os.makedirs(os.path.join(VERIF, "replays"), exist_ok=True)
+                    rp = os.path.join(VERIF, "replays", f"{prop}-model-{hashlib.sha256(k.encode()).hexdigest()[:10]}.json")
+                    with open(rp, "w") as f:
+                        json.dump({"kind": "exponax-dst-model-replay", "property": prop, "operation": k, "session": "float64" if x64 else "float32",
+                                   "history": "empty (one operation in a fresh interpreter)", "outcome": iso[x64][k], "why": why}, f, indent=1)  # fmt: skip
+                    det.append((k, why, rp))
+                    break
         good = ex.simulate()
         if not good:
             print("HARNESS-ERROR no simulated run completed: " + "; ".join(ex.errors)[:800])
             return 2
 
         bad = [r for r in good if any(m["severity"] == "beyond" for m in r["mismatches"])]
-        violations, known_hits = [], []
-        replay_path = None
+        violations, known_hits = [k for k, _, _ in det], sorted(set(det_known))
+        replay_path = det[0][2] if det else None
         if bad:
             first = sorted(bad, key=lambda r: (sum(len(t) for t in r["plan"]["threads"]), r["seed"]))[0]
             plan, best, attempts, reproduced = ex.minimise(first, "beyond")
             ops_bad = sorted({m["op"] for r in bad for m in r["mismatches"] if m["severity"] == "beyond"})
-            replay_path = ex.write_replay(first, plan, best, attempts, reproduced, extra={"property": prop, "operations_beyond_rounding": ops_bad[:100]})
+            sim_replay = ex.write_replay(first, plan, best, attempts, reproduced, extra={"property": prop, "operations_beyond_rounding": ops_bad[:100]})
+            replay_path = replay_path or sim_replay
             for op in ops_bad:
+                if op in violations or op in known_hits:
+                    continue
                 (known_hits if is_known(known, prop, op) else violations).append(op)
 
         sim = ex.report["simulation"]
@@ -316,9 +379,20 @@ def main():
                 "ambient_seam_hits_from_package_code": ex.seam_pkg_hits,
                 "replay": replay_path,
                 "known_findings_matched": known_hits,
+                "reference_models": {
+                    "model_operations_in_scope": sum(1 for k in ex.keys if k.startswith("model:")),
+                    "rejection_operations_in_scope": sum(1 for k in ex.keys if k.startswith("reject:")),
+                    "evaluated_in_the_empty_history": sum(1 for x in (False, True) for k in ex.reference[x] if k.startswith(("model:", "reject:"))),
+                    "evaluated_inside_simulated_histories": sum(1 for r in good for k in r.get("ops", []) if k.startswith(("model:", "reject:"))),
+                    "violations_in_the_empty_history": [{"operation": k, "why": w, "replay": rp} for k, w, rp in det][:20],
+                    "not_judged_raised_in_harness_code": det_notes[:10],
+                    "rule": "a model operation evaluates an API program and the reference model the property names for it (naive loop, eager one-at-a-time, freshly built object, numpy exp(symbol*dt), n small steps) and raises if they differ beyond rounding; a rejection operation must raise ValueError; both are judged in a fresh interpreter (empty history) and again in every simulated history",
+                },
             },
             "assumptions": [
-                "oracle: equality with the same operation evaluated alone in a fresh interpreter (bitwise; differences within 1e-4 relative in single / 1e-9 in double precision are counted but not reported as violations)",
+                "oracle 1: equality with the same operation evaluated alone in a fresh interpreter (bitwise; differences within 1e-4 relative in single / 1e-9 in double precision are counted but not reported as violations)",
+                "oracle 2: for model:/reject: operations, agreement with the executable reference model the property names (tolerance 2e-4 single / 1e-9 double times a per-relation factor <= 40, relative to the result's scale), in the empty history and in every simulated history",
+                "inputs are fixed closed-form arrays and literal keys: the model relations decide the property for the catalogue's programs and operation sequences, not over all inputs",
                 "the check decides only the history / interleaving / crash / ambient-state independence that the property implies; the property's input-quantified content is not examined by this technique family",
                 "JAX, XLA:CPU, equinox and CPython are trusted; jit-compiled calls are scheduling-atomic",
             ],
@@ -337,6 +411,10 @@ def main():
         )
         for e in ex.errors[:5]:
             print("HARNESS-NOTE " + e.splitlines()[0][:300])
+        for e in det_notes[:5]:
+            print("HARNESS-NOTE " + e[:300])
+        for k, why, rp in det[:5]:
+            print(f"   empty history: {k}: {why[:240]}")
         for op in known_hits:
             f = is_known(known, prop, op)
             print(f"KNOWN-FINDING: property={prop} {f.get('what', op)}")
